@@ -171,6 +171,18 @@ func (t *Input) reflectSetKey(rv reflect.Value, key string, v interface{}) (err 
 }
 
 func (t *Input) reflectSet(rv reflect.Value, v interface{}) (err error) {
+	if v == nil {
+		// A null, in a list most likely. Fine for a Go type that has a nil,
+		// anything else can not hold it.
+		switch rv.Kind() {
+		case reflect.Ptr, reflect.Slice, reflect.Map, reflect.Interface:
+			if rv.CanSet() {
+				rv.Set(reflect.Zero(rv.Type()))
+				return
+			}
+		}
+		return fmt.Errorf("can not coerce a null into a %s", rv.Kind())
+	}
 	if rv.CanSet() {
 		vv := reflect.ValueOf(v)
 		vt := vv.Type()
